@@ -157,7 +157,7 @@ Content(src) ==
                         MergedOf([i \in 1..Len(v) |-> [t |-> v[i].t, ord |-> TRUE]], h.merge, h.dupsort)
 
 \* does producing entry e of a merged table involve a failing merge call?
-FailTokOf(src) == IF src.t = "m" THEN mg[src.n].failtok ELSE -1
+FailTokOf(src) == IF src.t = "m" THEN mg[src.n].failtok ELSE IF src.t = "s" THEN so[src.n].failtok ELSE -1
 EntryFails(e, ft) == ft >= 0 /\ "n" \in DOMAIN e /\ e.n > 1 /\ \E i \in 1..Len(Tokens(e.v)) : Tokens(e.v)[i] = ft
 
 \* ------------------------------------------------------------------ iterators (C02 C03 C05)
@@ -212,13 +212,50 @@ Close(i) == i \in DOMAIN it /\ it' = Del(it, i) /\ UNCHANGED <<disk, wr, rd, us,
 
 \* mtbl_source_write(src, w): every entry of the source is offered to the writer in order; stops at the first refusal
 \* (heavy values are passed as operator arguments: TLC re-evaluates LET definitions inside actions on every use)
-SrcWriteOn(t, w, ok) ==
+SrcWriteTo(t, w, ok) ==
     LET old == wr[w].t
         bad == SelectInSeq([j \in 1..Len(t) |-> IF j = 1 THEN ~AddOk(old, t[1].k) ELSE ~Lt(t[j-1].k, t[j].k)], LAMBDA x : x)
         n == IF bad = 0 THEN Len(t) ELSE bad - 1          \* longest prefix the gate accepts
     IN /\ w \in DOMAIN wr
        /\ Len(t) > 0 => (ok <=> n = Len(t))               \* an empty source may report failure (no iterator)
        /\ wr' = [wr EXCEPT ![w].t = old \o SubSeq(t, 1, n)]
-       /\ UNCHANGED <<disk, rd, us, mg, so, fs, it, pl, judge>>
+SrcWriteOn(t, w, ok) == SrcWriteTo(t, w, ok) /\ UNCHANGED <<disk, rd, us, mg, so, fs, it, pl, judge>>
 SrcWrite(src, w, ok) == SrcWriteOn(StripN(Content(src).t), w, ok)
+\* ------------------------------------------------------------------ sorter (C06)
+\* so[s] = [adds, merge, failtok, iterating, maxmem, tmpdir, pool, buf (payload bytes buffered since the last spill)]
+SInit(s, maxmem, tmpdir, merge, failtok, pool) ==
+    /\ so' = Upd(so, s, [adds |-> <<>>, merge |-> merge, failtok |-> failtok, iterating |-> FALSE, maxmem |-> maxmem,
+                         tmpdir |-> tmpdir, pool |-> pool, buf |-> 0])
+    /\ UNCHANGED <<disk, wr, rd, us, mg, fs, it, pl, judge>>
+\* every spill file is created inside the configured temporary directory
+SpillsOk(s, spills) == \A j \in 1..Len(spills) : HasPrefix(spills[j].tmpl, so[s].tmpdir \o <<47>>)
+\* mtbl_sorter_add: refused once iteration has begun; otherwise accepted, and when it returns the entries still
+\* buffered are below the memory limit (a spill happens no later than that). For a pooled sorter the spill file is
+\* created asynchronously, so the timing clause is judged for pool-less sorters only.
+SAdd(s, k, v, ok, spills) ==
+    /\ s \in DOMAIN so
+    /\ SpillsOk(s, spills)
+    /\ IF so[s].iterating THEN ~ok /\ UNCHANGED so
+       ELSE LET nb == IF Len(spills) > 0 THEN 0 ELSE so[s].buf + Len(k) + VLen(v) IN
+            /\ ok
+            /\ so[s].pool < 0 => nb < so[s].maxmem
+            /\ so' = [so EXCEPT ![s].adds = Append(@, [k |-> k, v |-> v]), ![s].buf = nb]
+    /\ UNCHANGED <<disk, wr, rd, us, mg, fs, it, pl, judge>>
+SorterContent(s) == IF so[s].merge THEN [t |-> MergeFold(<<so[s].adds>>), ord |-> TRUE]
+                                   ELSE [t |-> AllSorted(<<so[s].adds>>), ord |-> FALSE]
+\* mtbl_sorter_iter: from now on adds and writes are refused; the iterator presents the fold of everything added
+SIter(s, i, null, spills) ==
+    /\ s \in DOMAIN so /\ SpillsOk(s, spills)
+    /\ OpenOn(i, [t |-> "s", n |-> s], Bound("iter", <<>>, <<>>), null, SorterContent(s))
+    /\ so' = [so EXCEPT ![s].iterating = TRUE, ![s].buf = 0]
+    /\ UNCHANGED <<disk, wr, rd, us, mg, fs, pl, judge>>
+\* mtbl_sorter_write: refused after iteration began; otherwise writes the sorted, merged input into the writer
+SWrite(s, w, ok, spills) ==
+    /\ s \in DOMAIN so /\ SpillsOk(s, spills)
+    /\ IF so[s].iterating THEN ~ok /\ UNCHANGED <<so, wr>>
+       ELSE /\ SrcWriteTo(StripN(SorterContent(s).t), w, ok)
+            /\ so' = [so EXCEPT ![s].iterating = TRUE, ![s].buf = 0]
+    /\ UNCHANGED <<disk, rd, us, mg, fs, it, pl, judge>>
+SDestroy(s) == s \in DOMAIN so /\ so' = Del(so, s) /\ UNCHANGED <<disk, wr, rd, us, mg, fs, it, pl, judge>>
+
 ====
